@@ -13,6 +13,7 @@ import (
 	"fmt"
 	"image"
 	"math"
+	"os"
 	"runtime/debug"
 	"sort"
 
@@ -290,6 +291,17 @@ func init() {
 				sub := []ycContent{cs[0], cs[62], cs[124], cs[125], cs[127], cs[129], cs[140]}
 				sp = append(sp, mc.Space{Name: "layouts-256", H: c20Harness(256, sub, false), NoLevels: true, Isolate: true, SplitDepth: 1,
 					Rule: "256x256: 7 contents x the same layout product (conversions only)"})
+			}
+			pb := 2
+			if tier == "thorough" {
+				pb = 3
+			}
+			sp = append(sp, mc.Space{Name: "concurrent-hash-pairs", H: c05HarnessOf(c19HashPairs), Bound: pb, Isolate: true, SplitDepth: 1,
+				Rule: fmt.Sprintf("each hash function twice at the same time on different images (one of them YCbCr) under the cooperative scheduler of C05, every schedule and pool answer with <= %d deviations: the luminance buffer a call converts into is its own until the hash is computed", pb)})
+			if raceBin := os.Getenv("VCHECK_RACE_BIN"); raceBin != "" {
+				sp = append(sp, mc.Space{Name: "concurrent-hash-pairs/race-detector", H: c05HarnessOf(c19HashPairs), Bound: pb - 1, Isolate: true, SplitDepth: 1,
+					Binary: raceBin, Env: []string{"GORACE=halt_on_error=1 exitcode=66"},
+					Rule: "the same in the -race build"})
 			}
 			return sp
 		},
